@@ -36,6 +36,9 @@ pub enum Op {
     SendUnconnectable(u8),
     /// client datagrams to a closed loopback port (the second send is refused by the kernel)
     SendClosedPort,
+    /// the destination of flow i keeps the flow alive on its own: n replies, one every
+    /// `gap` eighths of T (2 or 3), with no client datagram in between
+    ReplyChain(u8, u8, u8),
 }
 
 #[derive(Serialize, Deserialize, Debug, Clone)]
@@ -229,6 +232,23 @@ async fn run_history(c: &Case, shard_tag: u32) -> Verdict {
                 }
                 if delivered {
                     f.sent.push(payload);
+                    if alive_for_sure && !(i == 3 && dns_is_53) {
+                        let tag = format!("f{}-", i);
+                        let peers: Vec<SocketAddr> = servers[i].got.lock().unwrap().iter().filter(|(_, p)| p.starts_with(tag.as_bytes())).map(|(a, _)| *a).collect();
+                        if peers.len() >= 2 {
+                            ensure!(
+                                peers[peers.len() - 1] == peers[peers.len() - 2],
+                                "udp:live-flow-changed-socket",
+                                "step {}: flow {} was active {:?} ago (T = {:?}) yet its next datagram left from {} instead of {}: the flow had been released although it was never idle for T",
+                                step,
+                                i,
+                                f.last.map(|l| l.elapsed()),
+                                t,
+                                peers[peers.len() - 1],
+                                peers[peers.len() - 2]
+                            );
+                        }
+                    }
                 } else if expired_for_sure || alive_for_sure {
                     return viol(
                         if expired_for_sure && f.last.is_some() { "udp:datagram-after-expiry-lost" } else { "udp:datagram-not-delivered" },
@@ -280,6 +300,29 @@ async fn run_history(c: &Case, shard_tag: u32) -> Verdict {
                         f.pending_dns -= 1;
                     }
                     tokio::time::sleep(Duration::from_millis(3)).await;
+                }
+            }
+            Op::ReplyChain(i, n, gap) => {
+                let i = *i as usize % 4;
+                if i == 3 && dns_is_53 {
+                    continue; // a DNS flow ends with its answers
+                }
+                let peer = servers[i].got.lock().unwrap().iter().rev().find(|(_, p)| p.starts_with(format!("f{}-", i).as_bytes())).map(|(a, _)| *a);
+                let Some(peer) = peer else { continue };
+                let gap = Duration::from_millis(T_MS * (2 + *gap as u64 % 2) / 8);
+                for _ in 0..(3 + *n as usize % 6) {
+                    // only meaningful while the flow is surely alive when the reply is sent
+                    if !flows[i].last.is_some_and(|l| l.elapsed() + gap < t / 2) {
+                        break;
+                    }
+                    tokio::time::sleep(gap).await;
+                    seq += 1;
+                    let payload = format!("r{}-{}", i, seq).into_bytes();
+                    servers[i].sock.send_to(&payload, peer).await.map_err(|e| herr(e.to_string()))?;
+                    let f = &mut flows[i];
+                    expected_replies.push((f.dst, f.src, payload));
+                    f.replies += 1;
+                    f.last = Some(Instant::now());
                 }
             }
             Op::Wait(e) => {
@@ -425,7 +468,7 @@ impl Suite for FlowSuite {
         "flow-histories"
     }
     fn rule(&self) -> String {
-        "histories of 3-16 operations over 4 flows (three loopback UDP servers and one on port 53 of a private loopback address): client datagram on flow i, k replies from the destination of flow i, wait T/8 .. 13T/8 (T = 320 ms, real time), datagrams to a destination no socket can be connected to (255.255.255.255:9, fe80::1), datagrams to a closed port; a real CONNECT _udp2 stream over in-memory HTTP/2 feeds the real codec, udp_pipe and direct UDP multiplexer; after every step: each destination received exactly its flows' payloads, concurrent flows use distinct outbound ports, every reply reaches the client labelled (flow destination -> flow source), the outbound_udp_sockets gauge lies between the flows surely alive (idle < 0.7 T, DNS flow not yet fully answered) and those possibly alive (idle < 1.3 T + tick), a datagram after sure expiry is delivered, the multiplexer stream stays open after per-flow faults, and all sockets are released at the end; non-trivial = an expiry followed by reuse of the same pair, or a fault on one flow followed by traffic on another".into()
+        "histories of 3-16 operations over 4 flows (three loopback UDP servers and one on port 53 of a private loopback address): client datagram on flow i, k replies from the destination of flow i, a chain of 3-8 replies one every T/4 or 3T/8 without any client datagram, wait T/8 .. 13T/8 (T = 320 ms, real time), datagrams to a destination no socket can be connected to (255.255.255.255:9, fe80::1), datagrams to a closed port; a real CONNECT _udp2 stream over in-memory HTTP/2 feeds the real codec, udp_pipe and direct UDP multiplexer; after every step: each destination received exactly its flows' payloads, concurrent flows use distinct outbound ports, every reply reaches the client labelled (flow destination -> flow source), the outbound_udp_sockets gauge lies between the flows surely alive (idle < 0.7 T, DNS flow not yet fully answered) and those possibly alive (idle < 1.3 T + tick), a datagram after sure expiry is delivered, a flow that was active less than T/2 ago keeps its outbound socket, the multiplexer stream stays open after per-flow faults, and all sockets are released at the end; non-trivial = an expiry followed by reuse of the same pair, or a fault on one flow followed by traffic on another".into()
     }
     fn strategy(&self, _: Tier) -> BoxedStrategy<Case> {
         let op = prop_oneof![
@@ -434,6 +477,7 @@ impl Suite for FlowSuite {
             2 => prop_oneof![Just(0u8), Just(3u8), Just(11u8), Just(12u8)].prop_map(Op::Wait),
             1 => (0u8..2).prop_map(Op::SendUnconnectable),
             1 => Just(Op::SendClosedPort),
+            2 => (0u8..3, 0u8..6, 0u8..2).prop_map(|(i, n, g)| Op::ReplyChain(i, n, g)),
         ];
         prop::collection::vec(op, 3..=16).prop_map(|ops| Case { ops }).boxed()
     }
@@ -465,6 +509,20 @@ impl Suite for FlowSuite {
                 _ => {}
             }
         }
+        // a flow kept alive by its destination alone for longer than T, then used again
+        let mut chain_then_send = false;
+        for (i, op) in c.ops.iter().enumerate() {
+            if let Op::ReplyChain(f, n, g) = op {
+                let total = (3 + *n as u64 % 6) * (2 + *g as u64 % 2);
+                let sent_before = c.ops[..i].iter().rev().take_while(|o| !matches!(o, Op::Wait(_))).any(|o| *o == Op::Send(*f));
+                if total > 8 && sent_before && matches!(c.ops.get(i + 1), Some(Op::Send(x)) if x == f) {
+                    chain_then_send = true;
+                }
+            }
+        }
+        if chain_then_send {
+            v.push("kept-alive-by-replies-then-reused");
+        }
         if reuse {
             v.push("expiry-then-reuse");
         }
@@ -477,7 +535,7 @@ impl Suite for FlowSuite {
         v
     }
     fn required_classes(&self) -> Vec<&'static str> {
-        vec!["nontrivial", "expiry-then-reuse", "fault-then-traffic"]
+        vec!["nontrivial", "expiry-then-reuse", "fault-then-traffic", "kept-alive-by-replies-then-reused"]
     }
     fn check(&self, c: &Case) -> Verdict {
         let c = c.clone();
